@@ -665,7 +665,9 @@ fn main() {
     std::fs::create_dir_all(&td).unwrap();
     std::env::set_var("TMPDIR", &td);
     let re_testdir = regex::Regex::new(&format!("{}/\\.tmp[A-Za-z0-9]{{6}}", regex::escape(&td))).unwrap();
-    let re_now = regex::Regex::new(r"1[78][0-9]{17}").unwrap();
+    // __NOW__ is the current time in nanoseconds (19 digits): match on its current 4-digit prefix
+    let now = std::time::SystemTime::now().duration_since(std::time::UNIX_EPOCH).unwrap().as_nanos().to_string();
+    let re_now = regex::Regex::new(&format!("{}[0-9]{{15}}", &now[..4])).unwrap();
     let stdin = std::io::stdin();
     let stdout = std::io::stdout();
     let mut w = std::io::BufWriter::new(stdout.lock());
